@@ -286,6 +286,9 @@ func runC18(r *an.Run) {
 							o.FailAt(f.ID+"#rate-value", s.Where(), "currentFeeRate is set to %s", c)
 						}
 					case sw + "NewLinearFeeFunction":
+						if t := an.Text(s.Node.(*ast.AssignStmt).Rhs[0]); t != "start" {
+							o.FailAt(f.ID+"#initial-rate", s.Where(), "the constructor sets currentFeeRate to %s, expected the (capped) starting rate", t)
+						}
 					default:
 						o.FailAt(f.ID+"#writes-rate", s.Where(), "%s writes the current fee rate", f.ID)
 					}
@@ -318,6 +321,98 @@ func runC18(r *an.Run) {
 					o.FailAt(f.ID+"#new-position", s.Where(), "the position for a deadline in confTarget blocks is %s, expected width + 1 - confTarget", c)
 				}
 				guarded(o, f, s, an.CmpX(an.Param(0), an.LT, canonTerm(`^\(\$recv\.width \+ 1\)$`), "confTarget < width + 1"))
+			}
+		})
+
+	r.Obl("ramp-follows-the-block-height", "PATH",
+		"TxPublisher.monitor stores the height of the new block before it processes the records of that block, and Start stores it before the monitor runs; the conf target of the initial fee function and of every bump is calcCurrentConfTarget(stored height, req.DeadlineHeight), which is deadline - current height floored at zero; a bump hands exactly that conf target to IncreaseFeeRate and publishes only when it reported an increase",
+		"a height that lags by one block shifts the whole ramp: the ceiling is offered at the deadline block instead of one block before it", 7,
+		func(o *an.Obl) {
+			isStore := func(id string, c *ast.CallExpr) bool {
+				sel, ok := c.Fun.(*ast.SelectorExpr)
+				return ok && sel.Sel.Name == "Store" && strings.HasSuffix(an.Text(sel.X), ".currentHeight")
+			}
+			mon := p.Func(tp + "monitor")
+			st := mon.Calls(isStore, false)
+			pr := mon.Calls(an.CalleeIs(tp+"processRecords"), false)
+			if need(o, mon, "currentHeight.Store", st, 1) && need(o, mon, "processRecords", pr, 1) {
+				before(o, mon, "currentHeight.Store", st, "processRecords", pr)
+				// inside one block event: the store sits in the same case body, ahead
+				for _, a := range st {
+					if c := mon.Canon(callArg(a, 0)); !reMatch(`\.Height\(\)$`, c) {
+						o.FailAt(mon.ID+"#stored-height", a.Where(), "the stored height is %s, expected the height of the received block", c)
+					}
+					for _, b := range pr {
+						if a.Node.Pos() > b.Node.Pos() {
+							o.FailAt(mon.ID+"#height-after-records", a.Where(), "the block's height is stored after its records were processed: every bump of this block sees the previous height")
+						}
+					}
+				}
+			}
+			start := p.Func(tp + "Start")
+			sst := start.Calls(isStore, false)
+			if need(o, start, "currentHeight.Store", sst, 1) {
+				for _, v := range start.Graph().V {
+					if g, ok := v.Node.(*ast.GoStmt); ok && strings.Contains(an.Text(g.Call.Fun), "monitor") {
+						before(o, start, "currentHeight.Store", sst, "go t.monitor()", []an.Site{{Fn: start, V: v, Node: g}})
+					}
+				}
+			}
+			// conf target sources
+			for _, fn := range []string{tp + "initializeFeeFunction", tp + "handleFeeBumpTx"} {
+				f := p.Func(fn)
+				cs := f.Calls(an.CalleeIs(sw+"calcCurrentConfTarget"), false)
+				if !need(o, f, "calcCurrentConfTarget", cs, 1) {
+					continue
+				}
+				a := f.ArgCanon(cs[0])
+				o.Site("%s: conf target = calcCurrentConfTarget(%s, %s)", fn, a[0], a[1])
+				if a[0] != "$recv.currentHeight.Load()" && a[0] != "$p1" {
+					o.FailAt(fn+"#height-source", cs[0].Where(), "the conf target is computed from height %s", a[0])
+				}
+				if !strings.HasSuffix(a[1], ".DeadlineHeight") {
+					o.FailAt(fn+"#deadline-source", cs[0].Where(), "the conf target is computed from deadline %s", a[1])
+				}
+			}
+			prc := p.Func(tp + "processRecords")
+			for _, v := range prc.Graph().V {
+				g, ok := v.Node.(*ast.GoStmt)
+				if !ok || !strings.Contains(an.Text(g.Call.Fun), "handleFeeBumpTx") {
+					continue
+				}
+				c := prc.Canon(g.Call.Args[1])
+				o.Site("processRecords hands height %s to handleFeeBumpTx", c)
+				if c != "$recv.currentHeight.Load()" {
+					o.FailAt(prc.ID+"#bump-height", prc.Where(g.Pos()), "bumps are given height %s", c)
+				}
+			}
+			cc := p.Func(sw + "calcCurrentConfTarget")
+			for _, s := range cc.Assigns(an.LocalNamed("deadlineDelta"), false) {
+				if c := cc.Canon(s.Node.(*ast.AssignStmt).Rhs[0]); c != "($p1 - $p0)" {
+					o.FailAt(cc.ID+"#delta", s.Where(), "blocks left are %s, expected deadline - currentHeight", c)
+				}
+			}
+			for _, s := range cc.Assigns(an.LocalNamed("confTarget"), false) {
+				c := cc.Canon(s.Node.(*ast.AssignStmt).Rhs[0])
+				o.Site("confTarget = %s", c)
+				switch c {
+				case "0":
+					guarded(o, cc, s, an.Cmp(an.LocalNamed("deadlineDelta"), an.LT, an.IntConst(0), "deadlineDelta < 0"))
+				case "uint32(($p1 - $p0))":
+					guarded(o, cc, s, an.Cmp(an.LocalNamed("deadlineDelta"), an.GE, an.IntConst(0), "deadlineDelta >= 0"))
+				default:
+					o.FailAt(cc.ID+"#conf-target", s.Where(), "the conf target is %s", c)
+				}
+			}
+			hb := p.Func(tp + "handleFeeBumpTx")
+			inc := hb.Calls(an.CalleeNamed("IncreaseFeeRate"), false)
+			pub := hb.Calls(an.CalleeIs(tp+"createAndPublishTx"), false)
+			if need(o, hb, "IncreaseFeeRate", inc, 1) && need(o, hb, "createAndPublishTx", pub, 1) {
+				if a := hb.ArgCanon(inc[0]); !strings.HasPrefix(a[0], sw+"calcCurrentConfTarget(") {
+					o.FailAt(hb.ID+"#increase-arg", inc[0].Where(), "IncreaseFeeRate is given %s", a[0])
+				}
+				mustPass(o, hb, "IncreaseFeeRate", inc, an.OkErrNil, pub)
+				guarded(o, hb, pub[0], an.Truth(an.LocalNamed("increased"), true, "increased"))
 			}
 		})
 
@@ -373,10 +468,18 @@ func runC18(r *an.Run) {
 				}
 			}
 			ro := f.Calls(an.CalleeNamed("AddTxOut"), false)
+			nReq := 0
 			for _, s := range ro {
 				if strings.Contains(f.Canon(callArg(s, 0)), "RequiredTxOut()") {
+					nReq++
 					guarded(o, f, s, an.IsNil(an.CallNamed("RequiredTxOut", nil), false, "o.RequiredTxOut() != nil"))
+					if c := f.Canon(callArg(s, 0)); c != "$elem($p0).RequiredTxOut()" {
+						o.FailAt(f.ID+"#required-output-source", s.Where(), "the required output added is %s, expected the loop element's", c)
+					}
 				}
+			}
+			if nReq != 1 {
+				o.FailAt(f.ID+"#required-output-sites", f.Where(f.Body.Pos()), "expected exactly one place that adds an input's required output, found %d", nReq)
 			}
 		})
 
@@ -385,6 +488,28 @@ func runC18(r *an.Run) {
 		"a dust change output is unrelayable; a leftover neither paid out nor counted in the reported fee makes the real fee exceed what the budget check saw", 6,
 		func(o *an.Obl) {
 			f := p.Func(sw + "prepareSweepTx")
+			// the transaction's lock time: an input's required lock time is
+			// adopted only when it is reached and equals the one adopted so far
+			nLT := 0
+			for _, s := range f.Assigns(an.LocalNamed("locktime"), false) {
+				as := s.Node.(*ast.AssignStmt)
+				if as.Tok == token.DEFINE || an.Text(as.Rhs[0]) == "int32(-1)" {
+					continue
+				}
+				nLT++
+				o.Site("locktime = %s", an.Text(as.Rhs[0]))
+				if an.Text(as.Rhs[0]) != "int32(lt)" {
+					o.FailAt(f.ID+"#locktime-value", s.Where(), "the lock time adopted is %s", an.Text(as.Rhs[0]))
+				}
+				guarded(o, f, s, an.Truth(an.LocalNamed("ok"), true, "the input requires a lock time"))
+				guarded(o, f, s, an.CmpX(an.LocalNamed("lt"), an.LE, canonTerm(`^\$p\d$`), "lt <= uint32(currentHeight)"))
+				guarded(o, f, s, an.AnyOf("no lock time adopted yet, or the same one",
+					an.CmpX(an.LocalNamed("locktime"), an.EQ, canonTerm(`^-1$`), ""),
+					an.CmpX(an.LocalNamed("locktime"), an.EQ, an.LocalNamed("lt"), "")))
+			}
+			if nLT != 1 {
+				o.FailAt(f.ID+"#locktime-sites", f.Where(f.Body.Pos()), "expected one place that adopts an input's lock time, found %d", nLT)
+			}
 			ca := f.Assigns(an.LocalNamed("changeAmt"), false)
 			if need(o, f, "changeAmt", ca, 1) {
 				c := f.Canon(ca[0].Node.(*ast.AssignStmt).Rhs[0])
@@ -470,7 +595,16 @@ func runC18(r *an.Run) {
 				}
 			}
 			incs := f.Calls(an.CalleeNamed("Increment"), false)
-			need(o, f, "feeFunction.Increment", incs, 1)
+			if need(o, f, "feeFunction.Increment", incs, 1) {
+				// a failed Increment (budget used up) ends the attempt
+				var succ []an.Site
+				for _, s := range f.Returns() {
+					if an.IsNilIdent(f.Info(), s.Node.(*ast.ReturnStmt).Results[1]) {
+						succ = append(succ, s)
+					}
+				}
+				failureStops(o, f, "feeFunction.Increment", incs, an.OkErrNil, append(succ, chk...), "another createAndCheckTx round or a successful return")
+			}
 			for _, s := range f.AllCalls(false) {
 				id := an.CalleeID(f.Info(), s.Node.(*ast.CallExpr))
 				if strings.HasSuffix(id, ".IncreaseFeeRate") || strings.HasSuffix(id, ".increaseFeeRate") {
